@@ -2,6 +2,7 @@ package utils
 
 import (
 	"cmp"
+	"math"
 	"reflect"
 	"slices"
 	"strings"
@@ -16,6 +17,12 @@ func CompareAny(a, b any) int {
 	at := av.Kind()
 	bt := bv.Kind()
 	if at != bt {
+		/* Decoded numbers carry the width they happened to be stored with, e.g.
+		 * int8, uint16 or float64 for values of the same property, so numbers
+		 * of different kinds are compared by value. */
+		if isNumber(av) && isNumber(bv) {
+			return compareNumbers(av, bv)
+		}
 		// Different types, compare type kinds directly so same types are grouped up.
 		return cmp.Compare(at, bt)
 	}
@@ -23,7 +30,7 @@ func CompareAny(a, b any) int {
 	switch at {
 	case reflect.Int, reflect.Int8, reflect.Int16, reflect.Int32, reflect.Int64:
 		return cmp.Compare(av.Int(), bv.Int())
-	case reflect.Uint, reflect.Uint8, reflect.Uint16, reflect.Uint32, reflect.Uint64:
+	case reflect.Uint, reflect.Uint8, reflect.Uint16, reflect.Uint32, reflect.Uint64, reflect.Uintptr:
 		return cmp.Compare(av.Uint(), bv.Uint())
 	case reflect.Float32, reflect.Float64:
 		return cmp.Compare(av.Float(), bv.Float())
@@ -32,6 +39,52 @@ func CompareAny(a, b any) int {
 	}
 	// We don't know how to compare this type, so we just say they are equal.
 	return 0
+}
+
+func isNumber(v reflect.Value) bool {
+	return v.CanInt() || v.CanUint() || v.CanFloat()
+}
+
+// Compares two numbers of different kinds exactly, that is integers are not
+// rounded to float64 which would merge neighbouring values above 2^53.
+func compareNumbers(av, bv reflect.Value) int {
+	switch {
+	case av.CanInt() && bv.CanInt():
+		return cmp.Compare(av.Int(), bv.Int())
+	case av.CanUint() && bv.CanUint():
+		return cmp.Compare(av.Uint(), bv.Uint())
+	case av.CanFloat() && bv.CanFloat():
+		return cmp.Compare(av.Float(), bv.Float())
+	case av.CanInt() && bv.CanUint():
+		if av.Int() < 0 {
+			return -1
+		}
+		return cmp.Compare(uint64(av.Int()), bv.Uint())
+	case av.CanInt() && bv.CanFloat():
+		return compareIntegerFloat(av.Int(), bv.Float(), -(1 << 63), 1<<63)
+	case av.CanUint() && bv.CanFloat():
+		return compareIntegerFloat(av.Uint(), bv.Float(), 0, 1<<64)
+	}
+	// What remains are the pairs above the other way round
+	return -compareNumbers(bv, av)
+}
+
+// Compares an integer with a float, lo and hi are the bounds of the integer type
+// with hi exclusive. Within the bounds the integer part of the float is compared
+// as an integer and the fraction decides a tie. NaN is less than any number as
+// in cmp.Compare.
+func compareIntegerFloat[T int64 | uint64](n T, f, lo, hi float64) int {
+	switch {
+	case f != f || f < lo:
+		return 1
+	case f >= hi:
+		return -1
+	}
+	t := math.Trunc(f)
+	if c := cmp.Compare(n, T(t)); c != 0 {
+		return c
+	}
+	return cmp.Compare(t, f)
 }
 
 // Accesses a nested property in a map of the form path "a.b.c".
